@@ -194,3 +194,41 @@ fn listeners_only_observe() {
     std::mem::forget(fut);
     std::mem::forget(b);
 }
+
+/// P4 — configuration reaches the service: `BulkheadLayer::builder()…build().layer(inner)`
+/// creates exactly one semaphore with the configured number of permits, clones of the
+/// service share it (no new semaphore), and the configured max_wait is what a waiting
+/// caller is timed against.
+#[kani::proof]
+#[kani::unwind(5)]
+#[kani::stub(std::time::Instant::now, tokio::model::std_instant_now)]
+#[kani::stub(catch_unwind, crate::verif_kani::env::catch_unwind_stub)]
+fn layer_builds_one_shared_semaphore() {
+    use tower_layer::Layer;
+    let n: usize = kani::any();
+    kani::assume(n >= 1 && n <= 100_000);
+    let wait = any_millis(60_000);
+    let layer = crate::layer::BulkheadLayer::builder().max_concurrent_calls(n).max_wait_duration(wait).build();
+    assert!(st().sem_created == 0, "[C01.no_semaphore_before_layer] building the layer value creates no bulkhead yet");
+    let mut script = svc::any_script();
+    script.never = false;
+    script.immediate = true;
+    let mut b = layer.layer(Inner::new(script));
+    assert!(st().sem_created == 1 && st().sem_capacity == n, "[C01.one_semaphore_per_layer] one semaphore with max_concurrent_calls permits per wrapped service");
+    let mut b2 = b.clone();
+    assert!(st().sem_created == 1, "[C01.clones_share_semaphore] clones of the service share the semaphore");
+    // a caller on the clone that never gets a permit is timed against the configured max_wait
+    st().sem_avail = Avail::Never;
+    let _ = svc::poll_ready_once(&mut b2);
+    let mut fut = b2.call(kani::any());
+    let p = svc::poll_once(fut.as_mut());
+    assert!(st().timeouts_created == 1 && st().last_timeout_duration == wait, "[C07.configured_max_wait_used] the configured max_wait_duration bounds the wait");
+    if wait > Duration::ZERO {
+        assert!(p.is_pending(), "[C07.timeout_exact] a waiting caller is pending before max_wait_duration has elapsed");
+    }
+    let _ = svc::poll_ready_once(&mut b);
+    std::mem::forget(fut);
+    std::mem::forget(b);
+    std::mem::forget(b2);
+    std::mem::forget(layer);
+}
